@@ -311,9 +311,19 @@ func runC18(c *Ctx) {
 			}
 		}
 		same := len(lens) >= 2
-		for _, l := range lens {
+		for i, l := range lens {
 			if l != lens[0] {
-				same = false
+				// two expressions: the same number on the page's path (the make side is a pure function of the
+				// request and the limit, so it can be evaluated there)
+				z := newZWorld(p).get(gds)
+				_, mk := where[i].(*ssa.MakeSlice)
+				_, mk0 := where[0].(*ssa.MakeSlice)
+				switch {
+				case mk && !mk0 && z.sameOnThisPath(where[0], lens[0], l):
+				case mk0 && !mk && z.sameOnThisPath(where[i], l, lens[0]):
+				default:
+					same = false
+				}
 			}
 		}
 		posS := p.Pos(gds.Pos())
